@@ -92,6 +92,7 @@ type Event struct {
 	EncFlag  bool   `json:"encFlag"`
 	SrvUser  string `json:"srvUser"`
 	Resumed  bool   `json:"resumed"`
+	SessKind string `json:"sessKind"` // kind of the client that established the session in use
 }
 
 type TraceInit struct {
@@ -215,6 +216,7 @@ type world struct {
 	hch       chan handlerObs
 	cache     *security.SessionCache // the client's cache
 	sids      []string               // model sid -> real session id ("" = not learned)
+	sidKind   []string               // model sid -> kind of the client that established it
 	srvSids   []string               // to drop from the global cache afterwards
 	res       *Result
 	ctx       context.Context
@@ -234,6 +236,7 @@ type liveConn struct {
 	handlers  int
 	encSeen   *bool
 	connEvIdx int // index of the Connect/Resume event in the trace (-1: raw)
+	sessKind  string
 	probed    bool
 }
 
@@ -552,8 +555,8 @@ func (w *world) afterCommand(lc *liveConn, cmd string, disp *Step, probe bool) (
 		if o.cmd != o.cCommand {
 			w.res.Broken = append(w.res.Broken, fmt.Sprintf("handler registered for %d invoked with Conn.Command=%d", o.cmd, o.cCommand))
 		}
-		if o.negNil != (o.reg == "raw") && lc.via == "raw" == (o.reg == "raw") {
-			w.res.Broken = append(w.res.Broken, "Conn.Negotiation nil-ness does not match the path")
+		if o.negNil != (lc.via == "raw") {
+			w.res.Broken = append(w.res.Broken, "Conn.Negotiation nil-ness does not match the path the client used")
 		}
 		if lc.encSeen == nil {
 			b := o.isEnc
@@ -562,7 +565,7 @@ func (w *world) afterCommand(lc *liveConn, cmd string, disp *Step, probe bool) (
 			w.res.Broken = append(w.res.Broken, "Stream.IsEncrypted() changed between two handlers of one connection")
 		}
 		w.ev(Event{E: "Handler", Cmd: name, Reg: o.reg, EncReal: o.isEnc, AuthFlag: o.authFlag,
-			EncFlag: o.encFlag, SrvUser: o.user, Resumed: o.resumed, Kind: lc.kind})
+			EncFlag: o.encFlag, SrvUser: o.user, Resumed: o.resumed, Kind: lc.kind, SessKind: lc.sessKind})
 		if disp != nil && !expRun {
 			w.dev("dispatch %s via %s client %s: intended design refuses (lacks %s), real server ran the handler", cmd, lc.via, lc.kind, disp.Lacks)
 		}
@@ -588,6 +591,7 @@ func parseExp(raw json.RawMessage) Exp {
 
 func (w *world) connect(s Step, disp *Step) {
 	lc := w.open(s.User, s.Kind, "fresh")
+	lc.sessKind = s.Kind
 	host := strings.Split(lc.cli.LocalAddr().String(), ":")[0]
 	if s.Kind != "unauthenticated" {
 		w.mu.Lock()
@@ -650,6 +654,7 @@ func (w *world) connect(s Step, disp *Step) {
 			sid = neg.SessionId
 		}
 		w.sids = append(w.sids, sid)
+		w.sidKind = append(w.sidKind, s.Kind)
 		if sid != "" {
 			w.srvSids = append(w.srvSids, sid)
 		}
@@ -675,7 +680,7 @@ func (w *world) awaitAfterClientError(lc *liveConn, cmd string, disp *Step) (out
 		b := o.isEnc
 		lc.encSeen = &b
 		w.ev(Event{E: "Handler", Cmd: cmdName[o.cmd], Reg: o.reg, EncReal: o.isEnc, AuthFlag: o.authFlag,
-			EncFlag: o.encFlag, SrvUser: o.user, Resumed: o.resumed, Kind: lc.kind})
+			EncFlag: o.encFlag, SrvUser: o.user, Resumed: o.resumed, Kind: lc.kind, SessKind: lc.sessKind})
 		w.dev("connect %s client %s: the client's handshake failed but the server ran the handler", cmd, lc.kind)
 		// the client's stream is out of step now; no follow-ons on this connection
 		lc.refused = true
@@ -692,7 +697,7 @@ func (w *world) awaitAfterClientError(lc *liveConn, cmd string, disp *Step) (out
 		w.res.Handlers++
 		w.res.ByVia[lc.via]++
 		w.ev(Event{E: "Handler", Cmd: cmdName[o.cmd], Reg: o.reg, EncReal: o.isEnc, AuthFlag: o.authFlag,
-			EncFlag: o.encFlag, SrvUser: o.user, Resumed: o.resumed, Kind: lc.kind})
+			EncFlag: o.encFlag, SrvUser: o.user, Resumed: o.resumed, Kind: lc.kind, SessKind: lc.sessKind})
 		lc.refused, lc.probed = true, true
 		return outHandler, &o
 	default:
@@ -720,7 +725,8 @@ func (w *world) resume(s Step, disp *Step) {
 	_ = lc.cli.SetReadDeadline(time.Now().Add(WaitLong))
 	_, err := auth.ClientHandshake(w.ctx)
 	_ = lc.cli.SetReadDeadline(time.Time{})
-	idx := w.ev(Event{E: "Resume", Cmd: s.Cmd, Sid: s.Sid, Kind: "resumer"})
+	idx := w.ev(Event{E: "Resume", Cmd: s.Cmd, Sid: s.Sid, Kind: "resumer", SessKind: w.sidKind[s.Sid-1]})
+	lc.sessKind = w.sidKind[s.Sid-1]
 	lc.connEvIdx = idx
 	var out outcome
 	var o *handlerObs
@@ -790,7 +796,7 @@ func (w *world) followOn(cmd string, disp *Step, probe bool) {
 		case o := <-w.hch:
 			w.res.Handlers++
 			w.ev(Event{E: "Handler", Cmd: cmdName[o.cmd], Reg: o.reg, EncReal: o.isEnc, AuthFlag: o.authFlag,
-				EncFlag: o.encFlag, SrvUser: o.user, Resumed: o.resumed, Kind: lc.kind})
+				EncFlag: o.encFlag, SrvUser: o.user, Resumed: o.resumed, Kind: lc.kind, SessKind: lc.sessKind})
 		case <-time.After(5 * time.Millisecond):
 		}
 		return
